@@ -258,7 +258,26 @@ def job_driver(ctx: Ctx, driver, order, with_tf):
             second = np.asarray(solc(pts), float)
             fresh = np.asarray(solc(pts.copy()), float)
             info.update(second_call=second.tolist(), fresh_array=fresh.tolist())
-            return not np.allclose(second, fresh, rtol=1e-9, atol=1e-12), info
+            bad = not np.allclose(second, fresh, rtol=1e-9, atol=1e-12)
+            if with_tf:
+                # the same problem solved directly in x (no transform) must give the same function of x; initial / boundary data must be met
+                try:
+                    if driver == "bvp":
+                        plain = ode2.solve_ode_bvp(xg, fxc, coeffs, bdc, transform=None, no_derivatives=False, tol=1e-6)
+                    else:
+                        plain = ode2.solve_ode_ivp((-0.8, 0.8), fxc, coeffs, np.array([0.3, -0.2, 0.1][:order]), transform=None, no_derivatives=False)
+                    ref = np.asarray(plain(pts.copy()), float)
+                    info.update(direct_solution=ref.tolist())
+                    if not np.allclose(fresh, ref, rtol=2e-3, atol=2e-3):
+                        bad = True
+                    if driver == "ivp":
+                        at0 = np.asarray(solc(np.array([-0.8])), float).ravel()
+                        info.update(values_at_x0=at0.tolist(), prescribed=[0.3, -0.2, 0.1][:order])
+                        if not np.allclose(at0[:order], [0.3, -0.2, 0.1][:order], rtol=1e-4, atol=1e-5):
+                            bad = True
+                except Exception as ex:
+                    info["direct_solve_raised"] = f"{type(ex).__name__}: {ex}"
+            return bad, info
 
     def run():
         if driver == "bvp":
